@@ -26,7 +26,7 @@ func init() {
 			" Round 4: (R10) no address of a per-loop variable is kept across iterations (go 1.19 loop-variable semantics)." +
 			" (R11) the identity of a subroutine activation is an offset-derived instruction field (same rule as C01.R10)." +
 			" Round 5: (R12) group numbering restarts with every regexp literal." +
-			" Round 6: (R13) steering instructions cannot fail; (R14) the command's own names win over stored definitions; (R15) every field of a VM record that is read is also written somewhere.",
+			" Round 6: (R13) steering instructions cannot fail; (R14) the command's own names win over stored definitions; (R15) every field of a VM record that is read is also written somewhere; (R16) every process run gets its own environment.",
 		Assumptions: commonAssumptions,
 		Rules: []RuleFn{
 			{Name: "C13.R1", Run: func(c *Ctx) { ruleAdjustPure(c, "C13.R1") }},
@@ -42,6 +42,7 @@ func init() {
 			{Name: "C13.R13", Run: func(c *Ctx) { ruleSteeringInstructionsCannotFail(c, "C13.R13") }},
 			{Name: "C13.R14", Run: func(c *Ctx) { ruleScopeBeforeDefinitions(c, "C13.R14") }},
 			{Name: "C13.R15", Run: func(c *Ctx) { ruleRecordFieldsReadAreWritten(c, "C13.R15") }},
+			{Name: "C13.R16", Run: func(c *Ctx) { ruleProcessEnvFresh(c, "C13.R16") }},
 			{Name: "C13.R3", Run: func(c *Ctx) { ruleProgramReadOnly(c, "C13.R3") }},
 			{Name: "C13.R4", Run: func(c *Ctx) { ruleCommandScope(c, "C13.R4") }},
 			{Name: "C13.R6", Run: func(c *Ctx) { ruleAttemptFresh(c, "C13.R6") }},
@@ -113,7 +114,8 @@ func init() {
 		Explanation: "Decides the inductive skeleton behind `every match is a faithful, ordered, located slice`: (R1) single writer - the text/offset/line/column fields of the VM state are stored only by CONSUME, Set and the constructors; (R2) coherent step - CONSUME appends exactly the string it read and advances the offset by that string's length, updating line/column in a range over the same string; (R3) the match record is built from the start/current counters, the value from currentMatch, the number from the parameter, and CreateState starts current* and start* from the same argument with an empty text; (R4) a match is pushed only when non-empty, numbered matchNumber+1, and the next attempt starts at its end (scan discipline). " +
 			"Does NOT decide that Reader.Read returns the bytes at the offset (C07), column arithmetic for multi-byte input, nor the arithmetic itself." +
 			" Round 4: (R7) the number handed to MakeMatch is the scan's match counter + 1, the counter being identified from the loop bound." +
-			" Round 5: (R8) ds.NewRange keeps its arguments in their places.",
+			" Round 5: (R8) ds.NewRange keeps its arguments in their places." +
+			" Round 7: (R9) a search runs on a reader opened for that search.",
 		Assumptions: commonAssumptions,
 		Rules: []RuleFn{
 			{Name: "C03.R1", Run: func(c *Ctx) { ruleSingleWriter(c, "C03.R1") }},
@@ -124,6 +126,7 @@ func init() {
 			{Name: "C03.R6", Run: func(c *Ctx) { ruleReaderOffsetsAreFileOffsets(c, "C03.R6") }},
 			{Name: "C03.R7", Run: func(c *Ctx) { ruleMatchNumberProvenance(c, "C03.R7") }},
 			{Name: "C03.R8", Run: func(c *Ctx) { ruleRangeKeepsOrder(c, "C03.R8") }},
+			{Name: "C03.R9", Run: func(c *Ctx) { ruleReaderPerSearch(c, "C03.R9") }},
 		},
 	})
 	register(&Property{
@@ -182,7 +185,7 @@ func init() {
 			" Round 4: (R11) every mutex locked in the compile path is released on every path out of the function; (R12) variable indexes into fixed-size tables are bounded by the table length." +
 			" Round 5: (R13) getTokens stops on every EOF token." +
 			" Round 6: (R14) every integer division between source text and program has a divisor that is a non-zero constant or was tested against zero." +
-			" (R15) no pointer that can be nil is converted to the error interface.",
+			" (R15) no pointer that can be nil is converted to the error interface; (R16) constant indexes into program texts and lists in the generator are guarded by a length test.",
 		Assumptions: append([]string{"tokens always ends in an EOF token and consumeIgnoreableTokens never steps past it (axioms A1, A2)", "bufio.Reader's end of input is sticky (A3)"}, commonAssumptions...),
 		Rules: []RuleFn{
 			{Name: "C08.R1", Run: func(c *Ctx) { ruleEOFWorld(c, "C08.R1") }},
@@ -209,6 +212,7 @@ func init() {
 			{Name: "C08.R13", Run: func(c *Ctx) { ruleTokenListEndsAtEOF(c, "C08.R13") }},
 			{Name: "C08.R14", Run: func(c *Ctx) { ruleNoUnguardedDivision(c, "C08.R14") }},
 			{Name: "C08.R15", Run: func(c *Ctx) { ruleNoTypedNilError(c, "C08.R15") }},
+			{Name: "C08.R16", Run: func(c *Ctx) { ruleConstantIndexesGuarded(c, "C08.R16", []string{"bytecode"}) }},
 		},
 	})
 	register(&Property{
@@ -258,7 +262,7 @@ func init() {
 			"Does NOT decide index safety that depends on VM invariants (branch lists non-empty, capture offsets inside the match, jump targets in range) nor process loops that never end." +
 			" Round 4: (R15) variable indexes into fixed-size tables are bounded by the table length. (R16) the token kinds the list parser admits, the classes parse_character_class makes of them and GetMaxSize agree: no admitted class has a negative size." +
 			" Round 5: (R17) no allocation is sized by a number written in the program." +
-			" Round 6: (R18) the handlers of steering instructions cannot fail; (R19) a listed directory entry is used as a file only behind an IsDir test; (R20) every replace mode has a writer (CONFIRM: known finding).",
+			" Round 6: (R18) the handlers of steering instructions cannot fail; (R19) a listed directory entry is used as a file only behind an IsDir test; (R20) every replace mode has a writer (CONFIRM: known finding); (R21) no method call on a result that may be a nil interface without a nil test.",
 		Assumptions: commonAssumptions,
 		Rules: []RuleFn{
 			{Name: "C09.R1", Run: func(c *Ctx) {
@@ -332,6 +336,7 @@ func init() {
 			{Name: "C09.R18", Run: func(c *Ctx) { ruleSteeringInstructionsCannotFail(c, "C09.R18") }},
 			{Name: "C09.R19", Run: func(c *Ctx) { ruleListedEntriesAreFiles(c, "C09.R19") }},
 			{Name: "C09.R20", Run: func(c *Ctx) { ruleEveryModeHasWriter(c, "C09.R20") }},
+			{Name: "C09.R21", Run: func(c *Ctx) { ruleNoMethodOnNilResult(c, "C09.R21") }},
 		},
 	})
 	register(&Property{
@@ -419,7 +424,7 @@ func init() {
 		Explanation: "Equivalence with a regex engine is NOT decided (value-level; it is C01 plus this). Decided: the regex-specific translation tables and the numbering order - (R1) the quantifier table of parse_regexp_quantifier, extracted from the AstLoop literals and the character tests that control them (* + ? {m} {m,} {m,n}), and that the lazy marker applies to every quantifier; (R2) the atom table (^ $ . \\d \\D \\s \\S); (R3) a capturing group reads its number before its body is parsed (numbering by opening parenthesis)." +
 			" Round 4: (R6) the loop-stack protocol (same rule as C01.R5); (R7) no byte of a regexp literal is converted to a string as a code point; (R8) the scan discipline (same rule as C01.R3)." +
 			" Round 5: (R9) group numbering restarts per literal and every capturing group takes a number; (R10) the empty text matches with zero width; (R11) renumbering passes cover every program-counter field." +
-			" Round 6: (R12) checkpoints are isolated snapshots; (R13) every attempt starts from a fresh state; (R14) a sequence of regexp terms ends at `|` as it ends at `)`.",
+			" Round 6: (R12) checkpoints are isolated snapshots; (R13) every attempt starts from a fresh state; (R14) alternatives are tried in written order; (R15) the compiled program is read-only at run time.",
 		Assumptions: commonAssumptions,
 		Rules: []RuleFn{
 			{Name: "C14.R1", Run: func(c *Ctx) { ruleRegexQuantifiers(c, "C14.R1") }},
@@ -435,7 +440,8 @@ func init() {
 			{Name: "C14.R11", Run: func(c *Ctx) { ruleRenumberingComplete(c, "C14.R11") }},
 			{Name: "C14.R12", Run: func(c *Ctx) { ruleSnapshotIsolation(c, "C14.R12") }},
 			{Name: "C14.R13", Run: func(c *Ctx) { ruleAttemptFresh(c, "C14.R13") }},
-			{Name: "C14.R14", Run: func(c *Ctx) { ruleAlternationOfSequences(c, "C14.R14") }},
+			{Name: "C14.R14", Run: func(c *Ctx) { ruleAlternativeOrder(c, "C14.R14") }},
+			{Name: "C14.R15", Run: func(c *Ctx) { ruleProgramReadOnly(c, "C14.R15") }},
 		},
 	})
 	register(&Property{
@@ -527,7 +533,7 @@ func init() {
 			"shared compiled program (bytecode/ast objects, *Vore); (R4) no go statements, unsafe, cgo, and every library call goes to an allow-listed goroutine-safe package. " +
 			"Under R1-R4 two calls share only read-only memory. Does NOT decide determinism of results beyond that (random loop ids are unobservable by design)." +
 			" Round 4: (R5) every mutex Lock is released on every path out of its function; (R6) what Compile writes at package level is re-initialised before it is used (same rule as C13.R5)." +
-			" Round 6: (R7) the parser lock is not held while anything is read from the source.",
+			" Round 6: (R7) the parser lock is not held while anything is read from the source; (R8) nothing of the repository is called between a Lock and a non-deferred Unlock; (R9) no write into a slice handed in by a caller of the library.",
 		Assumptions: append([]string{"standard-library packages on the allow-list are goroutine-safe as documented"}, commonAssumptions...),
 		Rules: []RuleFn{
 			{Name: "C19.R1", Run: func(c *Ctx) { ruleGlobals(c, "C19.R1", c.apiRoots(), "Compile/CompileFile/(*Vore).Run/RunFiles") }},
@@ -536,6 +542,10 @@ func init() {
 			}},
 			{Name: "C19.R6", Run: func(c *Ctx) { ruleGlobalsReinit(c, "C19.R6") }},
 			{Name: "C19.R7", Run: func(c *Ctx) { ruleLockNotHeldAcrossReads(c, "C19.R7") }},
+			{Name: "C19.R8", Run: func(c *Ctx) {
+				ruleNoPanicUnderPlainLock(c, "C19.R8", []string{"ast", "bytecode", "engine", "libvore", "files"})
+			}},
+			{Name: "C19.R9", Run: func(c *Ctx) { ruleNoWriteIntoCallersSlice(c, "C19.R9") }},
 			{Name: "C19.R2", Run: func(c *Ctx) { ruleProgramReadOnly(c, "C19.R2") }},
 			{Name: "C19.R4", Run: func(c *Ctx) { ruleLibraryCalls(c, "C19.R4") }},
 		},
